@@ -212,6 +212,8 @@ Proof.
   destruct auth as [c|]; [|apply prov_refl]. destruct (clients s c) as [cl|]; [|apply prov_refl].
   destruct (negb (args_has (cl_grants cl) _)); [apply prov_refl|].
   destruct (key_of s dev) as [k|]; [|apply prov_refl].
+  destruct (used_device cfg (st s) k) as [rid|].
+  { cbn [fst fail st set_store]. eapply prov_trans; [apply prov_revoke_access|apply prov_revoke_refresh]. }
   destruct (device (st s) k) as [[stt r]|] eqn:Ed; [|apply prov_refl].
   repeat match goal with |- context [if ?c then fail s _ else _] => destruct c; [apply prov_refl|] end.
   match goal with |- context [grant_tokens ?s2 ?stored ?w] =>
@@ -464,6 +466,7 @@ Proof.
     destruct auth as [c|]; [|gr]. destruct (clients s c) as [cl|]; [|gr].
     destruct (negb (args_has (cl_grants cl) _)); [gr|].
     destruct (key_of s dev) as [k|]; [|gr].
+    destruct (used_device cfg (st s) k) as [rid|]; [gr|].
     destruct (device (st s) k) as [[stt r]|] eqn:Ed; [|gr].
     repeat match goal with |- context [if ?c then fail s _ else _] => destruct c; [gr|] end.
     match goal with |- context [grant_tokens ?s2 ?stored ?w] =>
@@ -588,6 +591,8 @@ Proof.
     destruct auth as [c|]; [|apply dev_keeps_eq; reflexivity]. destruct (clients s c) as [cl|]; [|apply dev_keeps_eq; reflexivity].
     destruct (negb (args_has (cl_grants cl) _)); [apply dev_keeps_eq; reflexivity|].
     destruct (key_of s dev) as [k|]; [|apply dev_keeps_eq; reflexivity].
+    destruct (used_device cfg (st s) k) as [rid|].
+    { apply dev_keeps_eq. cbn. now rewrite ?revoke_access_device, ?revoke_refresh_device. }
     destruct (device (st s) k) as [[stt r]|] eqn:Ed; [|apply dev_keeps_eq; reflexivity].
     repeat match goal with |- context [if ?c then fail s _ else _] => destruct c; [apply dev_keeps_eq; reflexivity|] end.
     match goal with |- context [grant_tokens ?s2 ?stored ?w] =>
